@@ -71,7 +71,7 @@ func main() {
 	case "fsdiff":
 		h.runFSDiff(*seed, *cases, *nops)
 	case "golden":
-		h.runGolden(*goldenDir)
+		h.runGolden(*goldenDir, *seed)
 	case "bigvalue":
 		h.runBigValue()
 	case "soak":
